@@ -557,11 +557,16 @@ var opKinds = []string{
 
 // genCase generates a complete case from a run seed.  profile selects the
 // fault configuration: "nofault" or "fault".
-func genCase(seed uint64, profile string) *Case {
+func genCase(seed uint64, profile string, deep bool) *Case {
 	r := &rnd{s: zzsim.Mix(seed, 1)}
 	c := &Case{Property: "C17", Seed: seed, Prelude: prelude}
 	depth := 2 + r.n(2)
 	nf := 1 + r.n(3)
+	if deep {
+		// thorough tier: larger expressions, more files
+		depth = 3 + r.n(2)
+		nf = 2 + r.n(3)
+	}
 	for i := 0; i < nf; i++ {
 		syn := "native"
 		if r.chance(2, 5) {
@@ -576,12 +581,15 @@ func genCase(seed uint64, profile string) *Case {
 	c.SpecSeed = r.u64()
 	c.Shared = genShared(r)
 	nt := 2 + r.n(3)
-	if r.chance(1, 8) {
-		nt = 5 + r.n(2)
+	if r.chance(1, 8) || (deep && r.chance(1, 2)) {
+		nt = 5 + r.n(3)
 	}
 	for t := 0; t < nt; t++ {
 		tm := TaskM{CtxMode: r.pick("own", "child", "child", "grandchild"), Vars: genVars(r, t)}
 		nops := 1 + r.n(4)
+		if deep {
+			nops = 2 + r.n(6)
+		}
 		for o := 0; o < nops; o++ {
 			tm.Ops = append(tm.Ops, genOp(r))
 		}
